@@ -12,7 +12,8 @@ import (
 // 5 a list of j one-character ASCII items, 6 j nested lists each of which declares as many
 // elements as there are bytes left behind its header (the most the decoder can be made to
 // believe), closed by an empty list: 3-byte length fields natively, 1-byte under the engine;
-// 7 j nested two-element lists <L <U1[0]> <L ...>> (a leaf at every level).
+// 7 j nested two-element lists <L <U1[0]> <L ...>> (a leaf at every level); 8 the same with a
+// one-element leaf whose format cycles through ASCII, binary, boolean, I2, U4, F4.
 func zzFamily(fam, j int, sym bool) []byte {
 	fill := func(n int, lim byte) []byte {
 		if sym && n <= 8 {
@@ -74,6 +75,13 @@ func zzFamily(fam, j int, sym bool) []byte {
 			item = append(item, 0x01, 0x02, 0xA5, 0x00)
 		}
 		item = append(item, 0x01, 0x00)
+	case 8: // as 7 with a one-element leaf of a different format at each level (ASCII, binary, boolean, I2, U4, F4)
+		leaves := [][]byte{{0x41, 0x01, 'x'}, {0x21, 0x01, 0x07}, {0x25, 0x01, 0x01}, {0x69, 0x02, 0xff, 0xfe}, {0xB1, 0x04, 1, 2, 3, 4}, {0x91, 0x04, 0x3f, 0x80, 0, 0}}
+		for i := 0; i < j; i++ {
+			item = append(item, 0x01, 0x02)
+			item = append(item, leaves[i%len(leaves)]...)
+		}
+		item = append(item, 0x01, 0x00)
 	}
 	return zzFrame(1, 1, 0, 1, []byte{0, 0, 0, 1}, item)
 }
@@ -81,16 +89,27 @@ func zzFamily(fam, j int, sym bool) []byte {
 // ZZ_C07_growth: candidate finder for super-linear memory growth, which short inputs cannot
 // show directly.  The engine sums the bytes of all variable-size allocation requests while
 // decoding members j and 2j of a family; if doubling the input grows the sum by more than a factor 2.5,
-// that is a candidate, decided natively: member `scale` of the family is decoded for real
-// and runtime TotalAlloc is compared with the fixed bound 16 KiB*len+1 MiB.
+// that is a candidate, decided natively: members `scale` and 2*scale of the family are decoded
+// for real; runtime TotalAlloc of each is compared with the fixed bound 16 KiB*len+1 MiB and the
+// two with each other (doubling the input must not triple the allocation).
 func ZZ_C07_growth() {
 	fam, j, scale := rt.Param("fam"), rt.Param("j"), rt.Param("scale")
 	if !rt.IsSymbolic() {
-		in := zzFamily(fam, scale, false)
-		rt.AllocBegin(0, 16384*len(in)+1<<20, "alloc:linear-at-scale")
-		_, ok := Parse(in)
-		rt.AllocEnd()
-		rt.Assert(ok || fam == 6, "growth:family-member-decodes")
+		// members scale and 2*scale: each within the fixed bound, and doubling the input does not
+		// triple the allocation (a linear function at most doubles; Go's amortised slice growth
+		// keeps the ratio below 2.5; a quadratic term at this scale approaches 4)
+		var got [2]int
+		for k := 0; k < 2; k++ {
+			in := zzFamily(fam, scale<<uint(k), false)
+			rt.AllocBegin(0, 16384*len(in)+1<<20, "alloc:linear-at-scale")
+			_, ok := Parse(in)
+			got[k] = rt.AllocTotal()
+			rt.AllocEnd()
+			rt.Assert(ok || fam == 6, "growth:family-member-decodes")
+		}
+		rt.Observe("total-alloc-scale", got[0])
+		rt.Observe("total-alloc-2scale", got[1])
+		rt.Assert(got[1] <= 3*got[0]+1<<20, "alloc:growth-ratio")
 		rt.Reach("end")
 		return
 	}
